@@ -820,3 +820,337 @@ func c20DupName(c *Ctx) {
 		fmt.Sprintf("%d dispatch comparisons on the value that was looked up in the seen set", same),
 		"the option switch dispatches on a different (or rewritten) value than the one checked for duplicates: two spellings of one option (e.g. with white space before '=') both pass the duplicate test and the later one silently wins")
 }
+
+// ---- C20.int-range: a tree needs at least two entries per node -------------------------------------
+
+func init() {
+	register(&Rule{Name: "C20.int-range", Min: 1, Run: c20IntRange,
+		Doc: "entries_per_node is stored only after a lower-bound test that rejects values below 2: mast's layer computation does not terminate for a branch factor of 1"})
+	byProp["C20"] = append(byProp["C20"], "C20.int-range")
+	byProp["C14"] = append(byProp["C14"], "C20.int-range")
+	explain["C20"] += " int-range: 'malformed arguments are rejected' includes integer options outside their domain; entries_per_node=1 is accepted by ParseInt but makes the first INSERT spin for ever inside the tree's layer computation, so the store of the parsed value into S3Options.EntriesPerNode must be reached only on the side of a comparison with a constant that implies value >= 2."
+}
+
+func c20IntRange(c *Ctx) {
+	const rule = "C20.int-range"
+	fn := mustFunc(c, "", "", "New")
+	epn := mustField(c, "", "S3Options", "EntriesPerNode")
+	if fn == nil || epn == nil {
+		return
+	}
+	sc := c.Scope(fn)
+	n := 0
+	for _, f := range sc.Funcs {
+		for _, st := range an.StoresToField(f, epn) {
+			n++
+			// the parsed integer behind the stored value
+			v := st.Val
+			for i := 0; i < 4; i++ {
+				if cv, ok := v.(*ssa.Convert); ok {
+					v = cv.X
+					continue
+				}
+				break
+			}
+			lower := int64(-1 << 62)
+			for _, b := range f.Blocks {
+				iff, ok := b.Instrs[len(b.Instrs)-1].(*ssa.If)
+				if !ok {
+					continue
+				}
+				cond, neg := an.StripNot(iff.Cond)
+				bo, ok := cond.(*ssa.BinOp)
+				if !ok {
+					continue
+				}
+				x, y := bo.X, bo.Y
+				op := bo.Op
+				strip := func(w ssa.Value) ssa.Value {
+					for i := 0; i < 4; i++ {
+						if cv, ok := w.(*ssa.Convert); ok {
+							w = cv.X
+							continue
+						}
+						break
+					}
+					return w
+				}
+				if k, ok := x.(*ssa.Const); ok && strip(y) == v {
+					// K op v  ==  v op' K
+					x, y = y, k
+					switch op {
+					case token.LSS:
+						op = token.GTR
+					case token.LEQ:
+						op = token.GEQ
+					case token.GTR:
+						op = token.LSS
+					case token.GEQ:
+						op = token.LEQ
+					}
+				}
+				k, ok := y.(*ssa.Const)
+				if !ok || strip(x) != v || k.Value == nil || k.Value.Kind() != constant.Int {
+					continue
+				}
+				kv := k.Int64()
+				for side := 0; side < 2; side++ {
+					if !an.OnlyVia(b, side, st.Block()) {
+						continue
+					}
+					truth := (side == 0) != neg
+					// the bound implied for v on this side
+					var lb int64 = -1 << 62
+					switch {
+					case op == token.LSS && !truth: // !(v < K)
+						lb = kv
+					case op == token.LEQ && !truth: // !(v <= K)
+						lb = kv + 1
+					case op == token.GTR && truth: // v > K
+						lb = kv + 1
+					case op == token.GEQ && truth: // v >= K
+						lb = kv
+					}
+					if lb > lower {
+						lower = lb
+					}
+				}
+			}
+			c.R.Cond(lower >= 2, rule, core.FuncName(f)+": entries_per_node is at least 2", c.P.Pos(st.Pos()),
+				fmt.Sprintf("stored only where the value is known to be >= %d", lower),
+				"entries_per_node is stored without a test that rejects values below 2: 'entries_per_node=1' is accepted and the first INSERT never returns (the tree's layer computation loops for ever with a branch factor of 1); zero and negative values silently mean the default")
+		}
+	}
+	if n == 0 {
+		c.R.Unk(rule, "s3db.New: entries_per_node", c.P.Pos(fn.Pos()), "no store to S3Options.EntriesPerNode found")
+	}
+}
+
+// ---- C20.notnull-enforced: a declared NOT NULL is checked by the table itself ----------------------
+
+func init() {
+	register(&Rule{Name: "C20.notnull-enforced", Min: 2, Run: c20NotNull,
+		Doc: "Insert and Update reject a NULL for a column declared NOT NULL (SQLite does not enforce declared constraints of a virtual table)"})
+	byProp["C20"] = append(byProp["C20"], "C20.notnull-enforced")
+	byProp["C06"] = append(byProp["C06"], "C20.notnull-enforced")
+	explain["C20"] += " notnull-enforced: SQLite passes the declared schema of a virtual table to the planner but enforces none of its constraints, so 'NOT NULL behaviour matches the specification' needs a check in the table: in Insert and in Update, inside the loop over the given values, a return of ErrS3DBConstraintNotNull is guarded by a nil test of the value and by the schema's NotNull flag of that column (directly or through a boolean helper that reads it)."
+}
+
+func c20NotNull(c *Ctx) {
+	const rule = "C20.notnull-enforced"
+	pk := c.P.Pkg("")
+	readsNotNull := func(f *ssa.Function) bool {
+		for _, b := range f.Blocks {
+			for _, in := range b.Instrs {
+				if ld, ok := in.(*ssa.UnOp); ok {
+					if fv := an.FieldOfLoad(ld); fv != nil && fv.Name() == "NotNull" {
+						return true
+					}
+				}
+				if fx, ok := in.(*ssa.Field); ok {
+					if fv := an.FieldVar(fx.X.Type(), fx.Field); fv != nil && fv.Name() == "NotNull" {
+						return true
+					}
+				}
+			}
+		}
+		return false
+	}
+	for _, m := range []string{"Insert", "Update"} {
+		fn := mustFunc(c, "", "*VirtualTable", m)
+		if fn == nil {
+			continue
+		}
+		name := core.FuncName(fn)
+		sc := c.Scope(fn)
+		good := false
+		for _, f := range sc.Funcs {
+			for _, b := range f.Blocks {
+				ret, ok := b.Instrs[len(b.Instrs)-1].(*ssa.Return)
+				if !ok || !globalLoad(an.RetErr(ret), "ErrS3DBConstraintNotNull") {
+					continue
+				}
+				// guarded by a nil test of a map-range value and by the NotNull flag
+				nilOK := an.GuardedByNilTest(an.Edge{From: b}, func(v ssa.Value) bool {
+					return rangeOfNext(v) != nil
+				}, true)
+				flagOK := an.GuardedByValue(an.Edge{From: b}, func(v ssa.Value) bool {
+					if fv := an.FieldOfLoad(v); fv != nil && fv.Name() == "NotNull" {
+						return true
+					}
+					if fx, ok := v.(*ssa.Field); ok {
+						if fv := an.FieldVar(fx.X.Type(), fx.Field); fv != nil && fv.Name() == "NotNull" {
+							return true
+						}
+					}
+					if cl, ok := v.(*ssa.Call); ok {
+						if h := cl.Call.StaticCallee(); h != nil && h.Pkg != nil && h.Pkg.Pkg == pk.Types && readsNotNull(h) {
+							return true
+						}
+					}
+					return false
+				}, true)
+				if nilOK && flagOK {
+					good = true
+				}
+			}
+		}
+		c.R.Cond(good, rule, name+": NULL for a NOT NULL column is refused", c.P.Pos(fn.Pos()),
+			"a nil value of a column whose schema says NotNull returns ErrS3DBConstraintNotNull",
+			"no check of the schema's NotNull flag: 'create virtual table k using s3db (columns=''a primary key, b not null, c'')' accepts 'insert into k(a,c) values(4,6)' and 'update k set b=null', which a native table refuses with 'NOT NULL constraint failed'")
+	}
+}
+
+// ---- C20.endpoint-needs-bucket: the option cross-check runs on the options as given ----------------
+
+func init() {
+	register(&Rule{Name: "C20.endpoint-needs-bucket", Min: 1, Run: c20EndpointNeedsBucket,
+		Doc: "OpenKV substitutes the temporary in-memory bucket only when no endpoint was given: the defaults are assigned on the 'Endpoint is empty' side of a test, so 's3_endpoint without s3_bucket' is rejected instead of silently redirected"})
+	byProp["C20"] = append(byProp["C20"], "C20.endpoint-needs-bucket")
+	explain["C20"] += " endpoint-needs-bucket: a validation that runs after the defaults were filled in can never fire; every assignment to the Bucket / Endpoint of the options inside OpenKV (the in-memory default) is reached only where a comparison showed the given Endpoint to be empty."
+}
+
+func c20EndpointNeedsBucket(c *Ctx) {
+	const rule = "C20.endpoint-needs-bucket"
+	fn := mustFunc(c, "", "", "OpenKV")
+	bucketF := mustField(c, "", "S3Options", "Bucket")
+	endpointF := mustField(c, "", "S3Options", "Endpoint")
+	if fn == nil || bucketF == nil || endpointF == nil {
+		return
+	}
+	name := core.FuncName(fn)
+	var stores []*ssa.Store
+	for _, f := range []*types.Var{bucketF, endpointF} {
+		stores = append(stores, an.StoresToField(fn, f)...)
+	}
+	// only stores into the options parameter itself (its spill), not into the kv.Config literal
+	var params []*ssa.Store
+	for _, st := range stores {
+		fa := st.Addr.(*ssa.FieldAddr)
+		if al, ok := fa.X.(*ssa.Alloc); ok {
+			isParamSpill := false
+			for _, r := range *al.Referrers() {
+				if s2, ok := r.(*ssa.Store); ok && s2.Addr == ssa.Value(al) {
+					if _, isP := s2.Val.(*ssa.Parameter); isP {
+						isParamSpill = true
+					}
+				}
+			}
+			if isParamSpill {
+				params = append(params, st)
+			}
+		}
+	}
+	if len(params) == 0 {
+		c.R.OK(rule, name+": defaults only without an endpoint", c.P.Pos(fn.Pos()), "OpenKV never rewrites the Bucket / Endpoint it was given")
+		return
+	}
+	good := true
+	why := ""
+	for _, st := range params {
+		guarded := false
+		for _, b := range fn.Blocks {
+			iff, ok := b.Instrs[len(b.Instrs)-1].(*ssa.If)
+			if !ok {
+				continue
+			}
+			cond, neg := an.StripNot(iff.Cond)
+			bo, ok := cond.(*ssa.BinOp)
+			if !ok || bo.Op != token.EQL && bo.Op != token.NEQ {
+				continue
+			}
+			isEmpty := func(v ssa.Value) bool {
+				k, ok := v.(*ssa.Const)
+				return ok && k.Value != nil && k.Value.Kind() == constant.String && constant.StringVal(k.Value) == ""
+			}
+			var tested ssa.Value
+			if isEmpty(bo.Y) {
+				tested = bo.X
+			} else if isEmpty(bo.X) {
+				tested = bo.Y
+			}
+			if tested == nil || an.FieldOfLoad(tested) != endpointF {
+				continue
+			}
+			// the side on which Endpoint == ""
+			si := 0
+			if (bo.Op == token.NEQ) != neg {
+				si = 1
+			}
+			if an.OnlyVia(b, si, st.Block()) {
+				// and the tested load precedes every rewrite of the field
+				guarded = true
+			}
+		}
+		if !guarded {
+			good = false
+			why = "the in-memory default is assigned at " + c.P.Pos(st.Pos()) + " without a test that the given Endpoint is empty: 'using s3db (s3_endpoint=…, columns=…)' without a bucket is accepted, declared and registered, and its rows go to the process-local temporary S3 instead of an error"
+		}
+	}
+	c.R.Cond(good, rule, name+": defaults only without an endpoint", c.P.Pos(params[0].Pos()), "every rewrite of Bucket / Endpoint is on the 'Endpoint is empty' side", why)
+}
+
+// ---- C20.names-unquoted: one spelling per column name inside s3db ----------------------------------
+
+func init() {
+	register(&Rule{Name: "C20.names-unquoted", Min: 3, Run: c20NamesUnquoted,
+		Doc: "sql.SQLName yields the identifier's content for every spelling (bare, 'single', \"double\"): the name is taken from a capture group and nothing is added to it"})
+	byProp["C20"] = append(byProp["C20"], "C20.names-unquoted")
+	explain["C20"] += " names-unquoted: the parsed name is the key under which s3db finds the key column, detects duplicates and stores the column's values, so \"id\" and id must be the same name: each assignment to SQLName's result is a capture group of the name pattern (or a strings.ReplaceAll of one, for the doubled quote), never a concatenation that keeps or re-adds quote characters."
+}
+
+func c20NamesUnquoted(c *Ctx) {
+	const rule = "C20.names-unquoted"
+	fn := mustFunc(c, "sql", "", "SQLName")
+	if fn == nil {
+		return
+	}
+	name := core.FuncName(fn)
+	n := 0
+	for _, f := range append([]*ssa.Function{fn}, fn.AnonFuncs...) {
+		for _, b := range f.Blocks {
+			for _, in := range b.Instrs {
+				st, ok := in.(*ssa.Store)
+				if !ok {
+					continue
+				}
+				// *res = …  (res is the parameter, captured by the closure)
+				root := an.ExprRoot(st.Addr)
+				isRes := false
+				switch x := root.(type) {
+				case *ssa.FreeVar:
+					isRes = x.Name() == fn.Params[0].Name()
+				case *ssa.Parameter:
+					isRes = x == fn.Params[0]
+				}
+				if !isRes {
+					continue
+				}
+				n++
+				concat := false
+				fromGroup := false
+				an.DependsOn(st.Val, func(v ssa.Value) bool {
+					if bo, ok := v.(*ssa.BinOp); ok && bo.Op == token.ADD {
+						if b, ok := bo.Type().Underlying().(*types.Basic); ok && b.Info()&types.IsString != 0 {
+							concat = true
+						}
+					}
+					if ld, ok := v.(*ssa.UnOp); ok && ld.Op == token.MUL {
+						if ia, ok := ld.X.(*ssa.IndexAddr); ok {
+							if _, isP := ia.X.(*ssa.Parameter); isP {
+								fromGroup = true
+							}
+						}
+					}
+					return false
+				})
+				c.R.Cond(fromGroup && !concat, rule, fmt.Sprintf("%s: result #%d is a capture group", name, n), c.P.Pos(st.Pos()),
+					"the name is the content of a capture group",
+					fmt.Sprintf("the parsed name is built by concatenation (from a capture group: %v): a quoted spelling keeps its quotes inside s3db, so \"id\" and id are different names — 'primary key(\"id\")' no longer finds column id, and two clients spelling a column differently store its values under different names", fromGroup))
+			}
+		}
+	}
+	if n == 0 {
+		c.R.Unk(rule, name+": result", c.P.Pos(fn.Pos()), "no assignment to the result found")
+	}
+}
